@@ -12,6 +12,9 @@ NOTES = {
  "C14-rLIMIT-max-needs-min": "MISS by tool limit: CBMC's C++ front end aborts (invariant violation) on the declaration-in-condition `if(const char *min_ = ...)` the variant introduces; the check exits 2 (undecided), not 1",
  "C16-cmp-null-string-as-empty": "first missed (cmp of NULL vs string was not asserted because the code orders raw pointers); caught since `C16.string.*.null_cmp_nonzero` (pointer checks off) was added",
  "C18-path_search-unique-prefix-le": "MISS by design: the child-search clause of C18 is STL/lambda code outside the reach of this technique (C18 is claimed for collapsePath only)",
+ "C18-read_path-skips-two-chars": "first exit 2 (the extraction rule counted the USES of the reference parameter, which is not a shape property); the use-count rules now accept any count >= 1",
+ "C18-move_path-tests-write-cursor": "first exit 2 for the same reason as the read_path seed",
+ "C07-arg_off-brackets-consume-index": "first MISSED (exit 0): C07's families had no array brackets in the middle of a tag string within their bounds; caught since bracketed tag strings (`i[ii]`, `s[ib]`, `[b]i`, `[i]h[T]s`) were added to `C07.accept_structured.*` (C01's shape family already caught it)",
  "C05-match_number-strtoul-base0": "first exit 2 (the variant removes the loops the loop contracts attach to; injection failure aborted the whole check); injection failure is now local to the proof obligations and the bounded `C05.index.*` family decides it",
 }
 print("| seeded change (directory under `seeded/`) | what it needs to manifest | final check result | caught by | note |")
